@@ -50,9 +50,9 @@ def c02(k, ctx):
     ctx.tlc_mc("MC_Encoder", "MC_Encoder_thorough.cfg" if ctx.thorough else "MC_Encoder.cfg")
     ctx.vh("gen", "i2s")
     recs, rej = ctx.validate("Trace_C02")
-    ctx.require_events("Enc")
+    ctx.require_events("Enc", "Gf2", "Gf2Sum")
     for r in recs:
-        if r["o"] == "ok":
+        if r["o"] == "ok" and r["e"] == "Enc":
             kk = r["n"] - r["r"]
             if any((c >= kk and c - kk != j) for j, row in enumerate(r["rows"]) for c in row):
                 ctx.nontrivial_keys.add(k.key(r["rows"], r["n"]))
@@ -60,7 +60,7 @@ def c02(k, ctx):
     ctx.extra["refused"] = sum(1 for r in recs if r.get("acc") is False)
     ctx.extra["certificate_checked"] = sum(1 for r in recs if r.get("cert", {}).get("kind") in ("inv", "ker"))
     ctx.exhaustive = True
-    ctx.samples = [k.sample_case(recs, 100), k.sample_case(recs, recs[-1]["i"])]
+    ctx.samples = [k.sample_case(recs, 400), k.sample_case(recs, recs[-1]["i"])]
     ctx.assumptions = ["TLC 1.8 + Json/IOUtils", "for r > 7 the (non-)invertibility witness comes from the harness oracle and is VERIFIED by TLC (T*W = I or T*x = 0)",
                        "exhaustive part enumerated by the harness (same finite set TLC enumerates in MC_Encoder)"]
 
